@@ -62,7 +62,7 @@ func isCanceledCall(v ssa.Value) bool {
 	if f.Blocks != nil && f.Signature.Results().Len() == 1 && f.Signature.Results().At(0).Type().String() == "bool" {
 		for _, b := range f.Blocks {
 			for _, in := range b.Instrs {
-				if fa, ok := in.(*ssa.FieldAddr); ok && ir.FieldNameOf(fa.X.Type(), fa.Field) == "canceled" && strings.HasSuffix(ir.NamedType(fa.X.Type()), ".Scheduler") {
+				if fa, ok := in.(*ssa.FieldAddr); ok && ir.FieldNameOf(fa.X.Type(), fa.Field) == canceledField && strings.HasSuffix(ir.NamedType(fa.X.Type()), ".Scheduler") {
 					// reads, does not write
 					writes := false
 					for _, ref := range *fa.Referrers() {
@@ -174,9 +174,12 @@ func c05SignalFanout(e *Env, s *Sched) {
 		return ok && c.Call.StaticCallee() == sig
 	}
 	setsCanceled := func(in ssa.Instruction) bool {
-		for _, ev := range e.C.FieldStores(fn, "canceled") {
+		for _, ev := range e.C.FieldStores(fn, e.schedFields().Canceled) {
 			if ev.Site == in {
 				if k, ok := ir.ConstInt(ev.Val); ok && k == 1 {
+					return true
+				}
+				if bv, ok := ir.ConstBool(ev.Val); ok && bv {
 					return true
 				}
 			}
@@ -433,9 +436,49 @@ func c05SignalTable(e *Env, s *Sched) {
 func c05AgentEscalation(e *Env, s *Sched) {
 	r := e.R
 	r.Rule("C05.agent-escalation", "VF", "escalation: SIGKILL, no override, timer from MaxCleanUpTime; /stop=(SIGTERM,true)", 4)
-	fn := e.Fn("internal/agent", "(*Agent).signal")
 	schedSignal := e.Fn(schedRel, "(*Scheduler).Signal")
-	if fn == nil || schedSignal == nil {
+	if schedSignal == nil {
+		return
+	}
+	// by role: the agent's escalation routine is the function of the agent package
+	// that waits in a select (the only one that does so around Scheduler.Signal)
+	var fn *ssa.Function
+	ar := e.agentRoles()
+	for _, f := range e.RepoFuncsSorted() {
+		if !ar.inPkg(f) || f.Parent() != nil {
+			continue
+		}
+		hasSel := false
+		for _, b := range f.Blocks {
+			for _, in := range b.Instrs {
+				if _, ok := in.(*ssa.Select); ok {
+					hasSel = true
+				}
+			}
+		}
+		if hasSel && len(ar.Does(&ssa.CallCommon{Value: f}, []string{"scheduler.Scheduler).Signal"})) > 0 {
+			if fn != nil {
+				r.Unknown("the agent's escalation routine", agentRel, "two functions of the agent package select around Scheduler.Signal")
+				return
+			}
+			fn = f
+		}
+	}
+	if fn == nil {
+		r.Unknown("the agent's escalation routine", agentRel, "no function of the agent package waits in a select and signals the scheduler")
+		return
+	}
+	var sigParam, overrideParam ssa.Value
+	for _, p := range fn.Params {
+		switch {
+		case ir.NamedType(p.Type()) == "os.Signal":
+			sigParam = p
+		case p.Type().String() == "bool":
+			overrideParam = p
+		}
+	}
+	if sigParam == nil || overrideParam == nil {
+		r.Unknown("the agent's escalation routine: (signal, allowOverride) parameters", e.Pos(fn.Pos()), "not found")
 		return
 	}
 	// select and its timer case
@@ -475,15 +518,21 @@ func c05AgentEscalation(e *Env, s *Sched) {
 	// Agent.signal, the helpers it is made of (virtual inlining view) and their closures
 	var parts []*ssa.Function
 	seenPart := map[*ssa.Function]bool{}
-	for _, g := range sortedFns(e.inlinedSet(fn, nil)) {
+	goPart := map[*ssa.Function]bool{}
+	withGo := e.inlinedWithGo(fn)
+	for _, g := range sortedFns(boolSet(withGo)) {
 		for _, h := range ir.WithClosures(g) {
 			if !seenPart[h] {
 				seenPart[h] = true
 				parts = append(parts, h)
+				goPart[h] = withGo[g]
 			}
 		}
 	}
 	inGoClosure := func(f *ssa.Function) bool {
+		if goPart[f] {
+			return true
+		}
 		for g := f; g != nil && g.Parent() != nil; g = g.Parent() {
 			for _, b := range g.Parent().Blocks {
 				for _, in := range b.Instrs {
@@ -503,6 +552,9 @@ func c05AgentEscalation(e *Env, s *Sched) {
 			}
 			lits := e.DCS(ci)
 			async := inGoClosure(f)
+			if _, isGo := ci.(*ssa.Go); isGo {
+				async = true
+			}
 			inTimeout := !async && HasCmp(lits, isSelIdx, token.EQL, int64(timeoutCase))
 			sigConst := signalConst(args[2])
 			allow, allowIsConst := ir.ConstBool(args[4])
@@ -512,11 +564,11 @@ func c05AgentEscalation(e *Env, s *Sched) {
 					sprintf("after MaxCleanUpTime the agent does not force-kill: signal const=%d allowOverride=%s", sigConst, e.C.Render(args[4])))
 			} else if !async {
 				// re-send: same signal, no override
-				r.Check(SameValue(args[2], fn.Params[1]) && allowIsConst && !allow, "Agent.signal: periodic re-send of the requested signal without override", e.InstrPos(ci),
+				r.Check(SameValue(args[2], sigParam) && allowIsConst && !allow, "Agent.signal: periodic re-send of the requested signal without override", e.InstrPos(ci),
 					"the periodic re-send does not forward the requested signal (or allows override)")
 			} else {
 				// first send in the goroutine: requested signal and allowOverride parameter
-				r.Check(SameValue(args[2], fn.Params[1]) && SameValue(args[4], fn.Params[2]) && !ir.IsNilConst(args[3]), "Agent.signal: first send forwards (sig, allowOverride) and waits via done", e.InstrPos(ci),
+				r.Check(SameValue(args[2], sigParam) && SameValue(args[4], overrideParam) && !ir.IsNilConst(ir.Deep(args[3])), "Agent.signal: first send forwards (sig, allowOverride) and waits via done", e.InstrPos(ci),
 					"the first fan-out does not forward the requested signal / override flag or does not wait for the graph to stop")
 			}
 		}
@@ -527,7 +579,7 @@ func c05AgentEscalation(e *Env, s *Sched) {
 	// callers of Agent.signal
 	httpSet := map[*ssa.Function]bool{}
 	if hh := e.FnQuiet("internal/agent", "(*Agent).HandleHTTP"); hh != nil {
-		for g := range e.inlinedSet(hh, nil) {
+		for g := range e.inlinedWithGo(hh) {
 			for _, h := range ir.WithClosures(g) {
 				httpSet[h] = true
 			}
@@ -536,14 +588,27 @@ func c05AgentEscalation(e *Env, s *Sched) {
 	for _, ci := range e.StaticCallSites(fn) {
 		args := ci.Common().Args
 		host := ShortFn(rootFn(ci.Parent()))
-		sc := signalConst(args[1])
-		allow, isC := ir.ConstBool(args[2])
+		var sigArg, ovArg ssa.Value
+		for i, p := range fn.Params {
+			if ssa.Value(p) == sigParam {
+				sigArg = args[i]
+			}
+			if ssa.Value(p) == overrideParam {
+				ovArg = args[i]
+			}
+		}
+		sc := signalConst(sigArg)
+		allow, isC := ir.ConstBool(ovArg)
 		switch {
 		case strings.HasSuffix(host, ".HandleHTTP") || httpSet[ci.Parent()]:
 			r.Check(sc == 15 && isC && allow, "HandleHTTP /stop: signal(SIGTERM, allowOverride=true)", e.InstrPos(ci),
 				"the stop request does not send SIGTERM with the step's signalOnStop override allowed")
 		default:
-			r.Check(isC && !allow && ir.Resolve(args[1]) == ir.Resolve(ci.Parent().Params[1]), host+": OS signal forwarded as (sig, false)", e.InstrPos(ci),
+			fwd := false
+			if p, isP := ir.Resolve(sigArg).(*ssa.Parameter); isP && p.Parent() == ci.Parent() && ir.NamedType(p.Type()) == "os.Signal" {
+				fwd = true
+			}
+			r.Check(isC && !allow && fwd, host+": OS signal forwarded as (sig, false)", e.InstrPos(ci),
 				"an OS signal received by the agent is not forwarded unchanged without override")
 		}
 	}
@@ -879,12 +944,12 @@ func c05TimeoutCtx(e *Env, s *Sched) {
 	for _, lf := range sortedFns(s.LoopFns) {
 		for _, ci := range ir.CallsIn(lf, func(c *ssa.CallCommon) bool { return ir.IsCallTo(c, "context.WithTimeout") }) {
 			c, isC := ci.(*ssa.Call)
-			if !isC || !e.IsFieldRead(c.Call.Args[1], nil, "timeout") {
+			if !isC || !e.IsFieldRead(c.Call.Args[1], nil, e.schedFields().Timeout) {
 				continue
 			}
 			pos := false
 			for _, l := range e.DCS(c) {
-				if l.Kind == "cmp" && l.Op == token.LSS && e.IsFieldRead(l.Y, nil, "timeout") {
+				if l.Kind == "cmp" && l.Op == token.LSS && e.IsFieldRead(l.Y, nil, e.schedFields().Timeout) {
 					if k, ok := ir.ConstInt(l.X); ok && k == 0 {
 						pos = true
 					}
